@@ -75,6 +75,55 @@ def seeded():
     return "\n".join(out) + "\n"
 
 
+def harmless():
+    out = ["## 7b. Behaviour-preserving rewrites: which checks stay quiet", "",
+           "Semantics-preserving rewrites of the anchored code (renames, extracted helpers, De Morgan, loop forms,",
+           "reordered independent statements), written by fresh sub-agents that saw only the property text (`<id>-R<n>`) or by",
+           "the property's builder (other labels), each with `why.txt` arguing that nothing observable changes. Evaluated by",
+           "`tools/eval_harmless.py`: patch applies, builds, the touched packages' tests pass, then `VERIF_REPO=<worktree> ./check <id> quick`",
+           "must exit 0. `first` = the check as it was when the rewrite arrived; `now` = after the correction listed.", "",
+           "| rewrite | first | now | correction |", "|---|---|---|---|"]
+    n = 0
+    for d in sorted(glob.glob(os.path.join(ROOT, "harmless", "*", "result.json"))):
+        m = json.load(open(d))
+        name = os.path.basename(os.path.dirname(d))
+        fr = m.get("first_result") or m
+        v = lambda c: "?" if c.get("false_alarm") is None else ("**alarm**" if c.get("false_alarm") else "quiet")
+        corr = str(m.get("correction", "")).replace("|", "\\|").replace("\n", " ")[:300]
+        out.append(f"| {name} | {v(fr)} | {v(m)} | {corr} |")
+        n += 1
+    loose = sorted(glob.glob(os.path.join(ROOT, "harmless", "*.diff")))
+    if loose:
+        out += ["", "Rewrites kept as plain patches (evaluated by hand, see the property's notes): " +
+                ", ".join(os.path.basename(x) for x in loose) + "."]
+    return "\n".join(out) + "\n"
+
+
+def regressions():
+    out = ["## 7c. Reverted repairs: is a fixed finding reported again?", "",
+           "For every `fixed` entry of `KNOWN_FINDINGS.jsonl`, `tools/eval_regression.py` reverts the fix commit in a scratch",
+           "worktree of /repo's HEAD and runs the property's quick check there: it must exit 1 with a VIOLATION line (`input` = with a",
+           "concrete failing input). `conflict` = the revert no longer applies on top of later repairs (nothing concluded).", "",
+           "| property | finding | fix commit | first | now | strengthening |", "|---|---|---|---|---|---|"]
+    for d in sorted(glob.glob(os.path.join(ROOT, "regressions", "C*.json"))):
+        pid = os.path.basename(d)[:-5]
+        for fid, m in sorted(json.load(open(d)).items()):
+            def v(c):
+                if c.get("revert_conflict"):
+                    return "conflict"
+                if c.get("reported_with_input"):
+                    return "input"
+                if c.get("reported"):
+                    return "no-input"
+                if "reported" in c:
+                    return "**missed**"
+                return "?"
+            fr = m.get("first_result") or m
+            note = str(m.get("strengthening", "")).replace("|", "\\|").replace("\n", " ")[:300]
+            out.append(f"| {pid} | {fid} | {m.get('commit', '')} | {v(fr)} | {v(m)} | {note} |")
+    return "\n".join(out) + "\n"
+
+
 def main():
     # notes/AS_BUILT.md is assembled from notes/as_built/{00_head,C01..C20,ZZ_tail}.md (each section has one owner)
     secs = sorted(glob.glob(os.path.join(ROOT, "notes", "as_built", "*.md")))
@@ -85,7 +134,7 @@ def main():
     parts = [read("docs/00_head.md").rstrip() + "\n\n" + "## 1. What the technique decides here, and what it cannot\n\n" +
              read("docs/10_technique.md").split("\n", 2)[2] if read("docs/10_technique.md").startswith("## 1") else read("docs/00_head.md") + read("docs/10_technique.md"),
              read("docs/20_architecture.md"), read("docs/30_decision.md"), read("docs/40_trusted.md"), asbuilt,
-             findings(), seeded(), read("docs/80_false_alarms.md"), read("docs/90_limits.md"), read("docs/95_appendix_probes.md")]
+             findings(), seeded(), harmless(), regressions(), read("docs/80_false_alarms.md"), read("docs/90_limits.md"), read("docs/95_appendix_probes.md")]
     with open(os.path.join(ROOT, "DESIGN.md"), "w") as f:
         f.write(SEP.join(p.rstrip() + "\n" for p in parts))
     print("DESIGN.md", sum(len(p) for p in parts), "bytes")
